@@ -72,6 +72,8 @@ def evaluate(src, cid, meta, patch, conf):
     m = {"id": cid, "author": "independent sub-agent (saw the repository worktree and the oracle, nothing from /verif)",
          "kind": meta.get("kind"), "files": meta.get("files"), "summary": meta.get("summary"),
          "confirmation": conf, "false_alarms": fired, "silent": not fired}
+    if os.path.exists(mp) and json.load(open(mp, encoding="utf-8")).get("accepted_residual"):
+        m["accepted_residual"] = json.load(open(mp, encoding="utf-8"))["accepted_residual"]
     m["first_evaluation"] = first or {"false_alarms": {k: v["alarms"][:2] for k, v in fired.items()}}
     if len(sys.argv) > 3:
         m["note"] = sys.argv[3]
